@@ -46,7 +46,7 @@ def spec_at(spec, tree, path):
             spec = spec.steps[i - 1]
         elif k == 'dict':
             spec = spec['k%d' % i]
-        elif k == 'coal':
+        elif k in ('coal', 'coalskip'):
             spec = spec.subspecs[i - 1]
         elif k in ('or', 'and'):
             spec = spec.children[i - 1]
@@ -71,7 +71,7 @@ def tgt_repr(t, spec, tree):
     return None      # containers built during the call: compared by kind only
 
 
-ERR_CLASS = {'new': 'PlantedError', 'same': 'PlantedError', 'fail': 'PlantedError', 'smiss': 'PathAccessError',
+ERR_CLASS = {'new': 'PlantedError', 'same': 'PlantedError', 'copy': 'PlantedError', 'fail': 'PlantedError', 'coalskip': 'CoalesceError', 'smiss': 'PathAccessError',
              'coal': 'CoalesceError', 'switch': 'MatchError', 'not': 'GlomError', 'mdict': 'MatchError'}
 
 
@@ -226,8 +226,8 @@ def worker(states):
 # ---- code -> spec -------------------------------------------------------------------------------
 def rand_tree(rng, depth):
     if depth == 0 or rng.random() < 0.2:
-        return {'k': rng.choice(['new', 'same', 'new', 'same', 'smiss']), 'a': '', 'c': []}
-    k = rng.choice(['tup', 'tup', 'pipe', 'dict', 'coal', 'coal', 'or', 'and', 'not', 'switch', 'fill'])
+        return {'k': rng.choice(['new', 'same', 'new', 'same', 'copy', 'smiss']), 'a': '', 'c': []}
+    k = rng.choice(['tup', 'tup', 'pipe', 'dict', 'coal', 'coal', 'coalskip', 'or', 'and', 'not', 'switch', 'fill'])
     # (lazy Iter shapes are enumerated by MC_C05 at positions where the root target flows in)
 
     def sub():
